@@ -98,7 +98,7 @@ def main():
             "guard": "rssched_verif",
             "enable": "harness/.cargo/config.toml passes --cfg rssched_verif (rustflags) when building /repo's crates as path dependencies",
             "baseline_off_cmd": "cd /repo && cargo test --workspace --no-fail-fast --offline",
-            "source_commits": ["db14fc4", "67fec9f", "4a8af0d", "e66a0ca", "e168476", "bcaacf0"],
+            "source_commits": ["db14fc4", "67fec9f", "4a8af0d", "e66a0ca", "e168476", "bcaacf0", "a1e24f2"],
             "add_only": True,
         },
         "engines": [
